@@ -1,5 +1,6 @@
 import AranyaV.Proofs.TypeFrag
 import AranyaV.Proofs.TypeExh
+import AranyaV.Proofs.TypeCount
 import AranyaV.Proofs.FoldBind
 namespace AranyaV.Lang
 open AranyaV.Gen.Lang
@@ -935,15 +936,161 @@ theorem total_flat {cx : LCtx} {p : Program} {sc : Scopes} {st stF : Ty} {pats p
         simp only [Val.beq, beq_self_eq_true, Bool.true_and, beq_iff_eq]
         first | exact (Int.toNat_of_nonneg h0).symm | exact Int.toNat_of_nonneg h0
 
+theorem sh_not_var : ∀ {e : Expr}, shLit e = true → isVar e = false := by
+  intro e h; cases e <;> simp [shLit] at h <;> rfl
+
+theorem sh_filters : ∀ (all : List Expr), all.all shLit = true →
+    (all.any fun | .some i => isVar i | _ => false) = false ∧
+    (all.any fun | .ok i => isVar i | _ => false) = false ∧
+    (all.any fun | .err i => isVar i | _ => false) = false ∧
+    (all.filter fun | .some i => !isVar i | _ => false).length = (all.filterMap unSome).length ∧
+    (all.filter fun | .ok i => !isVar i | _ => false).length = (all.filterMap unOk).length ∧
+    (all.filter fun | .err i => !isVar i | _ => false).length = (all.filterMap unErr).length ∧
+    ((all.any fun | .none => true | _ => false) = true → Expr.none ∈ all)
+  | [], _ => by simp
+  | x :: rest, h => by
+    simp only [List.all_cons, Bool.and_eq_true] at h
+    obtain ⟨h1, h2, h3, h4, h5, h6, h7⟩ := sh_filters rest h.2
+    cases x <;> simp [shLit] at h
+    all_goals (
+      simp only [List.any_cons, List.filter_cons, List.filterMap_cons, unSome, unOk, unErr, h1, h2, h3,
+        Bool.false_or, Bool.or_false, Bool.false_eq_true, if_false, List.mem_cons, reduceCtorEq, false_or]
+      first
+        | exact ⟨trivial, trivial, trivial, h4, h5, h6, h7⟩
+        | (simp only [sh_not_var h.1, Bool.not_false, if_true, List.length_cons, h4, h5, h6]
+           exact ⟨trivial, trivial, trivial, trivial, trivial, trivial, by simpa using h7⟩)
+        | (simp [sh_not_var h.1, h4, h5, h6]; simpa using h7)
+        | (simp [h4, h5, h6]))
+
+theorem flatten_all_sh : ∀ (pats : List Pat), pats.all shPat = true → (flattenPats pats).all shLit = true
+  | [], _ => rfl
+  | .default :: _, h => by simp [shPat] at h
+  | .values vs :: r, h => by
+    simp only [List.all_cons, Bool.and_eq_true, shPat] at h
+    simp only [flattenPats, List.all_append, Bool.and_eq_true]
+    exact ⟨h.1, flatten_all_sh r h.2⟩
+
+theorem any_default_sh : ∀ (pats : List Pat), pats.all shPat = true →
+    (pats.any fun | .default => true | _ => false) = false
+  | [], _ => rfl
+  | .default :: _, h => by simp [shPat] at h
+  | .values _ :: r, h => by
+    simp only [List.all_cons, Bool.and_eq_true] at h
+    simp [any_default_sh r h.2]
+
+/-- **the compiler's exhaustiveness check is sound** for a match without default arm whose patterns
+are nested literal shapes (`true`/`false`, enum variants, `None`, `Some(l)`, `Ok(l)`, `Err(l)`):
+all three ways `missingDefault` accepts it (`Ok`/`Err` literal counts, `None` + `Some` literal
+count, total count against the cardinality of the scrutinee type) imply that some arm is hit -/
+theorem total_sh {cx : LCtx} {p : Program} {sc : Scopes} {st stF : Ty} {pats pats' : List Pat}
+    (hE : cx.enums = p.enums) (hEnd : ∀ q ∈ p.enums, q.2.Nodup)
+    (hS : ∀ n d, cx.structDef n = some d → p.structDef n = some d)
+    (hlow : PatsLow cx sc st pats pats' stF) (hsh : patsSh pats = true) {scan : Scan}
+    (hscan : scanPats {} pats = some scan)
+    (hmiss : missingDefault cx stF scan.all (pats.any fun | .default => true | _ => false) = false)
+    {v : Val} (hv : Fit p v stF) : Total v pats' := by
+  simp only [patsSh] at hsh
+  obtain ⟨hall, hd⟩ := scanPats_all pats {} scan hscan
+  simp only [List.nil_append] at hall
+  have hdist : Distinct (flattenPats pats) := by rw [← hall]; exact hd (by simp [Distinct])
+  rw [any_default_sh pats hsh, hall] at hmiss
+  obtain ⟨_, hty⟩ := patsLow_sh hlow hsh
+  have hallsh := flatten_all_sh pats hsh
+  obtain ⟨f1, f2, f3, f4, f5, f6, f7⟩ := sh_filters _ hallsh
+  have htyall : ∀ l ∈ flattenPats pats, ∃ l', LitTy cx stF l l' := fun l hl =>
+    let ⟨l', _, h⟩ := allLitTy_mem hty hl; ⟨l', h⟩
+  -- a hit among the collected literals is a hit of an arm
+  have ofHit : Hit cx stF (flattenPats pats) v → Total v pats' := by
+    rintro ⟨l, hl, l', lit, hlt, hlv, hbq⟩
+    obtain ⟨l'', hl'', hlt''⟩ := allLitTy_mem hty hl
+    have := litTy_unique l hlt hlt''
+    subst this
+    obtain ⟨vs', hvs', hxm⟩ := flatten_mem hl''
+    exact ⟨_, hvs', Or.inr ⟨l', lit, hxm, hlv, hbq⟩⟩
+  apply ofHit
+  have cardRoute : ∀ c, cardinality cx 64 stF = some c → c ≤ (flattenPats pats).length → Hit cx stF (flattenPats pats) v :=
+    fun c hc hle => (count_sound hE hEnd hS 64 stF c _ hc hdist htyall).2 hle v hv
+  cases hT : stF with
+  | optional it =>
+    subst hT
+    simp only [missingDefault, Bool.not_false, Bool.true_and, Bool.and_eq_false_iff, Bool.not_eq_false', Bool.and_eq_true,
+      Bool.or_eq_true, beq_iff_eq] at hmiss
+    rcases hmiss with ⟨hnone, hb | hcard⟩ | hmiss
+    · cases hb.symm.trans f1
+    · have hcard' := hcard.trans (congrArg some f4)
+      rcases fit_optional hv with rfl | ⟨w, rfl, hw⟩
+      · exact ⟨.none, f7 hnone, .none, .none, by simp [LitTy], rfl, by simp [Val.beq]⟩
+      · have htyi : ∀ m ∈ (flattenPats pats).filterMap unSome, ∃ m', LitTy cx it m m' := by
+          intro m hm
+          obtain ⟨x', h⟩ := htyall _ (mem_unSome.mp hm)
+          simp only [LitTy] at h
+          obtain ⟨m', _, hm'⟩ := h
+          exact ⟨m', hm'⟩
+        obtain ⟨m, hm, m', lit, hmt, hlv, hbq⟩ :=
+          (count_sound hE hEnd hS 64 it _ _ hcard' (distinct_unSome hdist) htyi).2 (Nat.le_refl _) w hw
+        exact ⟨.some m, mem_unSome.mp hm, .some m', .some lit, by simp only [LitTy]; exact ⟨m', rfl, hmt⟩,
+          by simp [litVal, hlv], by simpa [Val.beq] using hbq⟩
+    · split at hmiss
+      · cases hmiss
+      · rename_i c hc
+        exact cardRoute c hc (by simpa using hmiss)
+  | result a b =>
+    subst hT
+    simp only [missingDefault, Bool.not_false, Bool.true_and, Bool.and_eq_false_iff, Bool.not_eq_false', Bool.and_eq_true,
+      Bool.or_eq_true, beq_iff_eq] at hmiss
+    rcases hmiss with (⟨hb | hca, hb2 | hcb⟩ | hf) | hmiss
+    · cases hb.symm.trans f2
+    · cases hb.symm.trans f2
+    · cases hb2.symm.trans f3
+    · have hca' := hca.trans (congrArg some f5)
+      have hcb' := hcb.trans (congrArg some f6)
+      have htyo : ∀ m ∈ (flattenPats pats).filterMap unOk, ∃ m', LitTy cx a m m' := by
+        intro m hm
+        obtain ⟨x', h⟩ := htyall _ (mem_unOk.mp hm)
+        simp only [LitTy] at h
+        obtain ⟨m', _, hm'⟩ := h
+        exact ⟨m', hm'⟩
+      have htye : ∀ m ∈ (flattenPats pats).filterMap unErr, ∃ m', LitTy cx b m m' := by
+        intro m hm
+        obtain ⟨x', h⟩ := htyall _ (mem_unErr.mp hm)
+        simp only [LitTy] at h
+        obtain ⟨m', _, hm'⟩ := h
+        exact ⟨m', hm'⟩
+      rcases fit_result_cases' hv with ⟨w, rfl, hw⟩ | ⟨w, rfl, hw⟩
+      · obtain ⟨m, hm, m', lit, hmt, hlv, hbq⟩ :=
+          (count_sound hE hEnd hS 64 a _ _ hca' (distinct_unOk hdist) htyo).2 (Nat.le_refl _) w hw
+        exact ⟨.ok m, mem_unOk.mp hm, .ok m', .ok lit, by simp only [LitTy]; exact ⟨m', rfl, hmt⟩,
+          by simp [litVal, hlv], by simpa [Val.beq] using hbq⟩
+      · obtain ⟨m, hm, m', lit, hmt, hlv, hbq⟩ :=
+          (count_sound hE hEnd hS 64 b _ _ hcb' (distinct_unErr hdist) htye).2 (Nat.le_refl _) w hw
+        exact ⟨.err m, mem_unErr.mp hm, .err m', .err lit, by simp only [LitTy]; exact ⟨m', rfl, hmt⟩,
+          by simp [litVal, hlv], by simpa [Val.beq] using hbq⟩
+    · cases hf
+    · split at hmiss
+      · cases hmiss
+      · rename_i c hc
+        exact cardRoute c hc (by simpa using hmiss)
+  | _ =>
+    subst hT
+    simp only [missingDefault, Bool.not_false, Bool.true_and, Bool.and_eq_false_iff, Bool.not_eq_false', Bool.and_eq_true,
+      Bool.or_eq_true, beq_iff_eq] at hmiss
+    split at hmiss
+    · cases hmiss
+    · rename_i c hc
+      exact cardRoute c hc (by simpa using hmiss)
+
 theorem total_of_frag {cx : LCtx} {p : Program} {sc : Scopes} {st stF : Ty} {pats pats' : List Pat}
     (hE : cx.enums = p.enums) (hEnd : ∀ q ∈ p.enums, q.2.Nodup)
-    (hlow : PatsLow cx sc st pats pats' stF) (htot : (patsTotal pats || patsFlat pats) = true) {scan : Scan}
+    (hS : ∀ n d, cx.structDef n = some d → p.structDef n = some d)
+    (hlow : PatsLow cx sc st pats pats' stF) (htot : (patsTotal pats || patsFlat pats || patsSh pats) = true) {scan : Scan}
     (hscan : scanPats {} pats = some scan)
     (hmiss : ¬ missingDefault cx stF scan.all (pats.any fun | .default => true | _ => false) = true)
     {v : Val} (hv : Fit p v st) : Total v pats' := by
-  rcases Bool.or_eq_true _ _ ▸ htot with h | h
+  simp only [Bool.or_eq_true] at htot
+  rcases htot with (h | h) | h
   · exact total_of_patsTotal hlow h hv
   · exact total_flat hE hEnd hlow h hscan (by simpa using hmiss) (patsLow_mono hlow v hv)
+  · exact total_sh hE hEnd hS hlow h hscan (by simpa using hmiss) (patsLow_mono hlow v hv)
 
 theorem patsOfE_map (arms : List (Pat × Expr)) : patsOfE arms = arms.map (·.1) := by
   induction arms with
@@ -1426,7 +1573,7 @@ theorem snd_e {cx : LCtx} {p : Program} {n : Nat} (hC : Ctx cx p) (ih : Snd cx p
     res_cases ihs of evalExpr _ _ _ _ _
     rename_i v l
     have hpl := armsE_patsLow arms st0 none stF (some ty) arms' harms hfa
-    have ihsel := ih.sel rt sc st0 _ _ _ env l v 0 hpl (total_of_frag (cx := cx.withRet rt) hC.hE hC.hEnd hpl hend hscan hmiss ihs) hrt henv
+    have ihsel := ih.sel rt sc st0 _ _ _ env l v 0 hpl (total_of_frag (cx := cx.withRet rt) hC.hE hC.hEnd hC.hS hpl hend hscan hmiss ihs) hrt henv
     res_cases ihsel of selectArm _ _ _ _ _ _ _
     rename_i j l'
     obtain ⟨i, pat', rfl, hi, hbind⟩ := ihsel
@@ -1677,7 +1824,7 @@ theorem snd_s {cx : LCtx} {p : Program} {n : Nat} (hC : Ctx cx p) (ih : Snd cx p
     res_cases ihs of evalExpr _ _ _ _ _
     rename_i v l
     have hpl := armsS_patsLow arms st0 stF arms' harms hfa
-    have ihsel := ih.sel rt sc st0 _ _ _ env l v 0 hpl (total_of_frag (cx := cx.withRet rt) hC.hE hC.hEnd hpl hend hscan hmiss ihs) hrt henv
+    have ihsel := ih.sel rt sc st0 _ _ _ env l v 0 hpl (total_of_frag (cx := cx.withRet rt) hC.hE hC.hEnd hC.hS hpl hend hscan hmiss ihs) hrt henv
     res_cases ihsel of selectArm _ _ _ _ _ _ _
     rename_i j l'
     obtain ⟨i, pat', rfl, hi, hbind⟩ := ihsel
